@@ -1,6 +1,6 @@
 (* C11 -- non-vacuity: concrete non-trivial inputs meet the hypotheses of the theorems. *)
 From Coq Require Import QArith Qcanon List Arith Bool ZArith Lia.
-From Verif.C11 Require Import Spec Algebra Model Proofs MGSolve.
+From Verif.C11 Require Import Spec Algebra Model Proofs MGProofs MGSolve.
 Import ListNotations.
 Open Scope Qc_scope.
 Definition q (a : Z) (b : positive) : Qc := Q2Qc (a # b).
@@ -82,3 +82,57 @@ Example ex_smoothing_set :
   smoothing_set StCellSupp (Some 1%nat) [3;4]%nat [5]%nat [1;2]%nat [2;4]%nat 2 1 = [1]%nat /\
   smoothing_set StCellSupp (Some 1%nat) [3;4]%nat [5]%nat [1;2]%nat [2;4]%nat 2 0 = [].
 Proof. vm_compute. repeat split; reflexivity. Qed.
+
+(* multigrid: a two-level hierarchy (5 fine / 3 coarse hat functions on [0,1], Dirichlet ends)
+   satisfies the hypotheses [good] of mg_fixed_point, and the cycle really moves other vectors *)
+Definition mgA : dense :=
+  [[q 2 1; q (-1) 1; 0; 0; 0]; [q (-1) 1; q 2 1; q (-1) 1; 0; 0]; [0; q (-1) 1; q 2 1; q (-1) 1; 0];
+   [0; 0; q (-1) 1; q 2 1; q (-1) 1]; [0; 0; 0; q (-1) 1; q 2 1]].
+Definition mgP : dense := [[1; 0; 0]; [q 1 2; q 1 2; 0]; [0; 1; 0]; [0; q 1 2; q 1 2]; [0; 0; 1]].
+Definition mgInd : list nat := [1; 2; 3]%nat.
+Definition mgL : level := mk_level mgP mgA mgInd (dsolve (submat mgA mgInd)).
+Definition mgInd0 : list nat := [1]%nat.
+Definition mgB0 : vec -> vec := dsolve (submat (galerkin mgP mgA) mgInd0).
+Definition mgD (i : nat) : Prop := i = 1%nat \/ i = 2%nat \/ i = 3%nat.
+Definition mgDc (j : nat) : Prop := j = 1%nat.
+
+Lemma vec_eq_this : forall a b : vec, map this a = map this b -> a = b.
+Proof.
+  induction a; intros [|y b] H; simpl in H; try discriminate; [reflexivity|].
+  injection H as H1 H2. f_equal; [|apply IHa; exact H2].
+  apply Qc_is_canon. rewrite H1. reflexivity.
+Qed.
+
+Example ex_mg_good : good mgInd0 mgB0 5 mgD [mgL].
+Proof.
+  simpl. split; [reflexivity|]. split.
+  { intros i [<-|[<-|[<-|[]]]]; reflexivity. }
+  split; [reflexivity|]. split.
+  { intros i [<-|[<-|[<-|[]]]]; (split; [lia|split; [unfold mgD; auto|qc_neq]]). }
+  split. { apply vec_eq_this. vm_compute. reflexivity. }
+  exists 3%nat, mgDc. split; [reflexivity|]. split.
+  - intros v Hl Hv j Hj. unfold mgDc in Hj. subst j.
+    destruct v as [|a [|b [|c [|d [|e [|? ?]]]]]]; simpl in Hl; try discriminate.
+    assert (Hb := Hv 1%nat (or_introl eq_refl)).
+    assert (Hc := Hv 2%nat (or_intror (or_introl eq_refl))).
+    assert (Hd := Hv 3%nat (or_intror (or_intror eq_refl))).
+    unfold vget in *. simpl in Hb, Hc, Hd. subst.
+    cbn. ring.
+  - split.
+    + intros i [<-|[]]. reflexivity.
+    + apply vec_eq_this. vm_compute. reflexivity.
+Qed.
+
+Example ex_mg_moves :
+  map this (mg_step SmGS 1 mgInd0 mgB0 [mgL] [0; q 1 1; 0; 0; 0] [0; q 1 1; q 2 1; q 1 1; 0])
+  <> [0%Q; 1%Q; 0%Q; 0%Q; 0%Q].
+Proof. vm_compute. discriminate. Qed.
+
+Example ex_mg_fixed :
+  mg_step SmSymmetric 2 mgInd0 mgB0 [mgL] [0; q 1 1; q 2 1; q 1 1; 0] [q 7 1; 0; q 2 1; 0; q (-3) 1]
+  = [0; q 1 1; q 2 1; q 1 1; 0].
+Proof.
+  apply (mg_fixed_point_l SmSymmetric 2 mgInd0 mgB0 mgL [] 5 mgD); try reflexivity.
+  - exact ex_mg_good.
+  - intros i Hi. destruct Hi as [Hi|[Hi|Hi]]; subst i; apply Qc_is_canon; vm_compute; reflexivity.
+Qed.
